@@ -138,6 +138,57 @@ where
         | nil => simp at h
         | cons c cs => have := ih (off + 1) cs h; simp; omega
 
+/-- the first reported match is the leftmost occurrence; no reported match = no occurrence -/
+theorem finditerGo_first (eq : Char → Char → Bool) (sub : Text) (fuel off : Nat) (t : Text)
+    (hf : t.length < fuel) :
+    (∀ s rest, finditerGo eq sub fuel off t = s :: rest →
+        ∀ j, j < s - off → matchAt eq sub (t.drop j) = false) ∧
+    (finditerGo eq sub fuel off t = [] → ∀ j, j ≤ t.length → matchAt eq sub (t.drop j) = false) := by
+  induction fuel generalizing off t with
+  | zero => omega
+  | succ f ih =>
+    unfold finditerGo
+    by_cases hm : matchAt eq sub t = true
+    · simp only [hm, if_true]
+      refine ⟨?_, (by intro h; cases h)⟩
+      intro s rest h j hj
+      have : s = off := by cases h; rfl
+      omega
+    · simp only [hm]
+      have hm' : matchAt eq sub t = false := by simpa using hm
+      cases t with
+      | nil =>
+        refine ⟨(by intro s rest h; cases h), ?_⟩
+        intro _ j hj
+        have : j = 0 := by simpa using hj
+        subst this; simpa using hm'
+      | cons c cs =>
+        obtain ⟨ih1, ih2⟩ := ih (off + 1) cs (by simp at hf; omega)
+        simp only [Bool.false_eq_true, if_false]
+        refine ⟨?_, ?_⟩
+        · intro s rest h j hj
+          cases j with
+          | zero => simpa using hm'
+          | succ j => simpa using ih1 s rest h j (by omega)
+        · intro h j hj
+          cases j with
+          | zero => simpa using hm'
+          | succ j => simpa using ih2 h j (by simp at hj; omega)
+
+theorem finditer_first (eq : Char → Char → Bool) (sub t : Text) :
+    (∀ s, (finditer eq sub t)[0]? = some s → ∀ j, j < s → matchAt eq sub (t.drop j) = false) ∧
+    (finditer eq sub t = [] → ∀ j, j ≤ t.length → matchAt eq sub (t.drop j) = false) := by
+  obtain ⟨h1, h2⟩ := finditerGo_first eq sub (t.length + 1) 0 t (by omega)
+  refine ⟨?_, h2⟩
+  intro s hs j hj
+  unfold finditer at hs
+  cases hl : finditerGo eq sub (t.length + 1) 0 t with
+  | nil => rw [hl] at hs; simp at hs
+  | cons s' rest =>
+    rw [hl] at hs
+    simp at hs; subst hs
+    exact h1 s' rest hl j (by omega)
+
 theorem nth_mem {α : Type} {ms : List α} {count : Int} {x : α} (h : nth ms count = some x) : x ∈ ms := by
   unfold nth at h
   split at h
